@@ -116,6 +116,32 @@ def _num(v):
     return tm.evalf(v.t, {}) if isinstance(v, SReal) else float(v)
 
 
+def install_relation_models(rel_module):
+    """relations._validate_count eval()s a formatted string; on a symbolic count the same comparison
+    is made on the proxy (A2: raises ValueError iff the comparison is false)."""
+    real = rel_module._validate_count
+    import operator
+
+    ops = [("==", operator.eq), ("!=", operator.ne), (">=", operator.ge), ("<=", operator.le), (">", operator.gt), ("<", operator.lt)]
+
+    def _validate_count(count, condition):
+        if not is_symbolic(count):
+            if isinstance(count, SReal):
+                count = count.concrete()
+            return real(count, condition)
+        USED.add("relations._validate_count := proxy comparison (same operator/number)")
+        for sym_, fn in ops:
+            if condition.startswith(sym_):
+                number = float(condition[len(sym_):])
+                if not bool(fn(count, number)):
+                    raise ValueError(f"Count value ({count}) does not met the condition: {condition}")
+                return None
+        raise ValueError(f"Unknown condition (operator or format): {condition}")
+
+    _validate_count.__wrapped_real__ = real
+    rel_module._validate_count = _validate_count
+
+
 def conformance_repo(seed=0, n=20):
     """The models against the working tree's own functions.norm / functions.rotation_matrix (the
     real, un-modelled callables) on concrete inputs, including non-unit axes.  A mismatch means the
@@ -136,6 +162,19 @@ def conformance_repo(seed=0, n=20):
         mod = np.array([[_num(x) for x in row] for row in rodrigues(ax, th)], dtype=float)
         if np.abs(np.asarray(real_rot(np.array(ax), th), dtype=float) - mod).max() > 1e-8:
             bad.append(("functions.rotation_matrix", ax, th))
+    # _validate_count model against the real validator
+    rel = importlib.import_module("classy_blocks.grading.relations")
+    real_v = getattr(rel._validate_count, "__wrapped_real__", rel._validate_count)
+    for cnt in (0, 1, 2, 7.5):
+        for cond in (">=1", ">1", "<3", "==2", "!=1", "<=7.5"):
+            try:
+                real_v(cnt, cond)
+                r1 = True
+            except ValueError:
+                r1 = False
+            want = {">=1": cnt >= 1, ">1": cnt > 1, "<3": cnt < 3, "==2": cnt == 2, "!=1": cnt != 1, "<=7.5": cnt <= 7.5}[cond]
+            if r1 != want:
+                bad.append(("relations._validate_count", cnt, cond))
     return bad[:3]
 
 
